@@ -1,4 +1,7 @@
 import RTV.Lemmas.DtRes
+import RTV.Gen.DtMaps
+import RTV.Gen.DtMapsX1
+import RTV.Gen.DtMapsX2
 /-!
 # C07 — clock times resolve to the right 24-hour time, alone or attached to a date
 
@@ -17,7 +20,8 @@ the working tree follows. `clock24` is the full-strength statement (repaired var
 `clock24_hour0_unresolved` document the pre-fix variant as a regression witness.
 -/
 namespace RTV.DtRes
-open RTV.Py RTV.Cal
+open RTV.Py RTV.Cal RTV.Gen.DtMaps
+set_option linter.unusedVariables false
 
 /-- C07(a) every 24-hour time `H[H][:MM[:SS]]`, 00:00 … 23:59:59, without am/pm resolves to that time; for an hour
 1–12 it additionally yields the reading twelve hours later — and nothing else. (Repaired variant.) -/
@@ -134,6 +138,98 @@ theorem date_at_time_ambiguous (u : Uni) (ha : u.Ascii) (dcfg : DateCfg) (hmax :
   rw [date_at_time u ha dcfg hmax dg y mo d hdec hy hvd wy tcfg c wf false false (Or.inr (by omega)) ref hv]
   have : (0 < c.h ∧ c.h ≤ 12) := by omega
   simp [adjHour, this, (toPm_twelve_apart c.h h1 h12).1]
+
+
+/-! ## Every culture's `TimeParserConfiguration`
+
+`clock24`, `clock12`, `ambiguous_two_readings`, `date_at_time` quantify over *every* `TimeCfg`; the instances below
+make the cultures explicit: the configuration of a culture is its regenerated `numbers` table, its hand-modelled
+`adjust_by_prefix` style and `adjust_by_suffix` style (`RTV/Model/DtRes.lean`, tied by unit correspondence), for any
+outcome of the regexes those functions search (`flags`, `ltoh`, `si`). -/
+
+open RTV.Gen.DtMaps in
+/-- (numbers, prefix style, suffix style) of the eight cultures that use `BaseTimeParser`; `repaired` = the closing
+`else: adjust.has_pm = True` of `adjust_by_suffix` is present in English / Portuguese / Italian / German
+(`fix: 2534fc60f`, finding `afternoon-12`). -/
+def cultureStyles (repaired : Bool) : List (String × List (Str × Nat) × PrefixStyle × SuffixStyle) :=
+  [("en-us", numbers_en, enPrefixStyle, enSuffixStyle repaired), ("es-es", numbers_es, esPrefixStyle, simpleSuffixStyle),
+   ("es-mx", numbers_esmx, esPrefixStyle, simpleSuffixStyle), ("fr-fr", numbers_fr, frPrefixStyle, simpleSuffixStyle),
+   ("pt-br", numbers_pt, ptPrefixStyle, nightSuffixStyle repaired), ("it-it", numbers_it, itPrefixStyle, nightSuffixStyle repaired),
+   ("de-de", numbers_de, dePrefixStyle, nightSuffixStyle repaired), ("nl-nl", numbers_nl, nlPrefixStyle, nlSuffixStyle)]
+
+/-- the `TimeCfg` of a culture for given regex outcomes (repaired hour-0 test) -/
+def cultureCfg (u : Uni) (k : String × List (Str × Nat) × PrefixStyle × SuffixStyle) (flags : List Bool)
+    (ltoh : Option (Str × Str)) (si : SuffixInfo) : TimeCfg :=
+  { numbers := k.2.1, zeroHourIsNone := false, adjustByPrefix := adjustByPrefixG u k.2.1 k.2.2.1 flags ltoh,
+    adjustBySuffix := fun _ a => .ok (adjustBySuffixG k.2.2.2 si a) }
+
+/-- C07(a)–(c) for each culture's configuration: 24-hour times, am/pm (description group) times and the two readings
+of an ambiguous hour. -/
+theorem clock_cultures (u : Uni) (ha : u.Ascii) (rep : Bool) (k) (hk : k ∈ cultureStyles rep) (flags : List Bool)
+    (ltoh : Option (Str × Str)) (si : SuffixInfo) (c : Clock) (wf : c.WF u) (ref : DT) (hv : ref.date.valid = true) :
+    resolveTime u (cultureCfg u k flags ltoh si) (c.groups false false) ref =
+        .ok (some (if 1 ≤ c.h ∧ c.h ≤ 12 then [c.value c.h, c.value ((c.h + 12) % 24)] else [c.value c.h])) ∧
+    (1 ≤ c.h → c.h ≤ 12 → ∀ pm : Bool,
+      resolveTime u (cultureCfg u k flags ltoh si) (c.groups (!pm) pm) ref =
+        .ok (some [c.value (c.h % 12 + if pm then 12 else 0)])) := by
+  constructor
+  · rw [clock24 u ha _ rfl c wf ref hv]
+    split
+    · rename_i h; rw [(toPm_twelve_apart c.h h.1 h.2).1]
+    · rfl
+  · intro h1 h12 pm
+    exact clock12 u ha _ c wf h1 h12 pm ref hv
+
+/-- C07(d) for each culture's time configuration (the date side is any `DateCfg`, e.g. the culture's tables). -/
+theorem date_at_time_cultures (u : Uni) (ha : u.Ascii) (rep : Bool) (k) (hk : k ∈ cultureStyles rep) (flags : List Bool)
+    (ltoh : Option (Str × Str)) (si : SuffixInfo) (dcfg : DateCfg) (hmax : dcfg.maxTwoDigitYearFuture ≤ 100)
+    (dg : DateGroups) (y mo d : Nat) (hdec : Decodes u dcfg dg y mo d) (hy : 1000 ≤ y ∧ y ≤ 9999)
+    (hvd : (⟨y, mo, d⟩ : Date).valid = true) (wy : Int) (c : Clock) (wf : c.WF u) (amD pmD : Bool) (ref : DT)
+    (hv : ref.date.valid = true) :
+    resolveDateAtTime u dcfg dg wy (cultureCfg u k flags ltoh si) (c.groups amD pmD) false false ref =
+      .ok (some (if 0 < adjHour c.h amD pmD ∧ adjHour c.h amD pmD ≤ 12 ∧ amD = false ∧ pmD = false
+                 then [c.dtValue y mo d (adjHour c.h amD pmD), c.dtValue y mo d (pmHour (adjHour c.h amD pmD))]
+                 else [c.dtValue y mo d (adjHour c.h amD pmD)])) :=
+  date_at_time u ha dcfg hmax dg y mo d hdec hy hvd wy _ c wf amD pmD (Or.inl rfl) ref hv
+
+/-- C07(b) for designator *phrases* (`8 in the morning`, `3 de la tarde`, `7 uur 's avonds`, …), which reach
+`match_to_time` through the `suffix` group and `adjust_by_suffix`: for every culture, hour 1–12, any minute / second,
+a plain am / pm designator gives exactly one value, `h am ↦ h mod 12`, `h pm ↦ h mod 12 + 12` (so 12 pm is 12 and
+12 am is 00). Repaired suffix style (`rep = true`); am designators hold for the code as found too. -/
+theorem designator_cultures (u : Uni) (ha : u.Ascii) (rep : Bool) (k) (hk : k ∈ cultureStyles rep) (flags : List Bool)
+    (ltoh : Option (Str × Str)) (si : SuffixInfo) (pm : Bool) (hd : PlainDesignator si pm) (hrep : rep = true ∨ pm = false)
+    (c : Clock) (wf : c.WF u) (h1 : 1 ≤ c.h) (h12 : c.h ≤ 12) (sfx : Str) (hsfx : blank u sfx = false)
+    (ref : DT) (hv : ref.date.valid = true) :
+    resolveTime u (cultureCfg u k flags ltoh si) (c.groupsSfx sfx) ref =
+      .ok (some [c.value (c.h % 12 + if pm then 12 else 0)]) := by
+  have hst : k.2.2.2.simple = true ∨ k.2.2.2.elsePm = true ∨ pm = false := by
+    simp only [cultureStyles, List.mem_cons, List.mem_nil_iff, or_false] at hk
+    rcases hrep with rfl | rfl
+    · rcases hk with rfl | rfl | rfl | rfl | rfl | rfl | rfl | rfl <;>
+        simp [enSuffixStyle, simpleSuffixStyle, nightSuffixStyle, nlSuffixStyle]
+    · exact Or.inr (Or.inr rfl)
+  exact resolveTime_designator u ha _ k.2.2.2 si pm hd hst (fun _ _ => rfl) c wf h1 h12 sfx hsfx ref hv
+
+/-- the suffix outcome of `in the afternoon` (any plain pm designator) -/
+def siPlainPm : SuffixInfo := { full := true, pm := [112, 109] }
+
+example : PlainDesignator siPlainPm true := ⟨rfl, rfl, rfl, rfl, rfl, rfl⟩
+
+/-- Negative witness (code as found before `fix: 2534fc60f`, finding `afternoon-12`): `12 in the afternoon` keeps
+the `ampm` comment and resolves to both 12:00 and 00:00 … -/
+theorem afternoon_12_both_readings :
+    (resolveTime asciiUni (cultureCfg asciiUni ("en-us", numbers_en, enPrefixStyle, enSuffixStyle false) [] none siPlainPm)
+      (({ hs := [49, 50], h := 12 } : Clock).groupsSfx [105, 110]) refWitness).toOption =
+      some (some [{ timex := [84, 49, 50], type := sTime, value := some [49, 50, 58, 48, 48, 58, 48, 48] },
+                  { timex := [84, 48, 48], type := sTime, value := some [48, 48, 58, 48, 48, 58, 48, 48] }]) := by
+  decide +kernel
+
+/-- … and to 12:00 alone once the closing `else` is there. -/
+theorem afternoon_12_repaired :
+    (resolveTime asciiUni (cultureCfg asciiUni ("en-us", numbers_en, enPrefixStyle, enSuffixStyle true) [] none siPlainPm)
+      (({ hs := [49, 50], h := 12 } : Clock).groupsSfx [105, 110]) refWitness).toOption =
+      some (some [{ timex := [84, 49, 50], type := sTime, value := some [49, 50, 58, 48, 48, 58, 48, 48] }]) := by
+  decide +kernel
 
 /-- shape of the TIMEX: `T`, two digits, then `:mm` / `:ss` exactly for the parts that were written -/
 theorem short_time_shape (c : Clock) (hh : Nat) (h : hh < 100) :
